@@ -609,3 +609,138 @@ def _key(spec: OpSpec, cfg: Dict[str, Any]) -> str:
 for _spec in OPS:
     for _cfg in _spec.configs():
         register(Job(_key(_spec, _cfg), ["C01", "C02", "C03", "C05"] + (["C04"] if _spec.name == "cross_entropy" else []), UF + _spec.name, _cfg, op_job(_spec, _cfg)))
+
+
+# ------------------------------------------------------------------ C01: argument guard
+
+
+def _unsupported_of(fv: Any) -> List[str]:
+    import ast
+
+    out: List[str] = []
+    for d in fv.decorators:
+        if isinstance(d, ast.Call):
+            for kw in d.keywords:
+                if kw.arg == "unsupported_args" and isinstance(kw.value, (ast.List, ast.Tuple)):
+                    out += [e.value for e in kw.value.elts if isinstance(e, ast.Constant)]
+    return out
+
+
+def _all_exprs(ctx: Ctx, it: Any, res: SymTensor, args: Dict[str, Any], diff: Sequence[str]) -> List[z3.ExprRef]:
+    ex: List[z3.ExprRef] = []
+    for t, c in res.val.terms:
+        ex += [t, c]
+    for sgm in res.shape.segs:
+        if isinstance(sgm, SV):
+            ex.append(sgm.z)
+        elif isinstance(sgm, Run):
+            ex += [sgm.n, sgm.P]
+    if z3.is_expr(res.dtype):
+        ex.append(res.dtype)
+    _, gr = grads_of(ctx, it, res)
+    for name in diff:
+        t = args.get(name)
+        if isinstance(t, SymTensor):
+            for tt, cc in grad_for(gr, t).terms:
+                ex += [tt, cc]
+    return ex
+
+
+def _names_of(v: Any) -> List[str]:
+    if isinstance(v, SV):
+        return [str(c) for c in _consts(v.z)]
+    if isinstance(v, tz.Opaque):
+        return [str(v.z)]
+    if isinstance(v, SymTensor):
+        return [str(c) for t, _ in v.val.terms for c in _consts(t)] + ([str(v.dtype)] if z3.is_const(v.dtype) else [])
+    if isinstance(v, (tuple, list)):
+        return [n for x in v for n in _names_of(x)]
+    if z3.is_expr(v):
+        return [str(c) for c in _consts(v)]
+    return []
+
+
+def _consts(e: z3.ExprRef) -> List[z3.ExprRef]:
+    out, seen, stack = [], set(), [e]
+    while stack:
+        x = stack.pop()
+        if x.get_id() in seen:
+            continue
+        seen.add(x.get_id())
+        if z3.is_const(x) and x.decl().kind() == z3.Z3_OP_UNINTERPRETED:
+            out.append(x)
+        stack.extend(x.children())
+    return out
+
+
+def guard_job(spec: OpSpec) -> Callable[[], Record]:
+    """every parameter of the public op is either used (the result depends on it) or
+    rejected (listed as unsupported: a non-default value raises ValueError)"""
+    qual = UF + spec.name
+    cfg = dict(spec.configs()[0])
+    # prefer the richest configuration (all optional tensors present)
+    for c in spec.configs():
+        if c.get("constraint", None) in (None,) and all(v is not False and v != "None" for k, v in c.items() if k != "constraint"):
+            cfg = dict(c)
+            break
+
+    def run() -> Record:
+        def build(ctx: Ctx) -> Any:
+            it = mk_interp(ctx, verifying=[qual])
+            args, meta = spec.make(ctx, cfg)
+            if spec.constraints is not None:
+                args["constraint"] = None
+            f = lookup_fn(it, qual)
+            a = f.node.args
+            params = [x.arg for x in a.posonlyargs + a.args + a.kwonlyargs]
+            unsupported = _unsupported_of(f)
+
+            def thunk() -> Any:
+                res = _call(it, f, args)
+                rejected: Dict[str, str] = {}
+                for u in unsupported:
+                    sym = opaque(ctx, "nondefault_" + u)
+                    nd = len(a.defaults)
+                    pos = [x.arg for x in a.posonlyargs + a.args]
+                    default = it.eval(a.defaults[pos.index(u) - (len(pos) - nd)], f.env)
+                    ctx.assume(z3.Not(tz.to_V(ctx, sym) == tz.to_V(ctx, default)))
+                    try:
+                        _call(it, f, args, {u: sym})
+                        rejected[u] = "accepted"
+                    except PyRaise as e:
+                        rejected[u] = e.exc
+                return res, args, params, unsupported, rejected
+
+            return it, thunk
+
+        def post(p: PathResult, i: int) -> Any:
+            ctx = p.ctx
+            tag = f"C01:functional.{spec.name}"
+            if p.outcome != "return":
+                ctx.oblige(f"{tag}:guard_harness", False, exc=str(p.exc))
+                return None
+            res, args, params, unsupported, rejected = p.value
+            for u in unsupported:
+                ctx.oblige(f"{tag}:unsupported_argument_{u}_rejected_with_ValueError", rejected.get(u) == "ValueError", got=rejected.get(u))
+            exprs = _all_exprs(ctx, p.interp, res, args, spec.diff)
+            for name in params:
+                if name in unsupported or name in ("constraint", "out"):
+                    continue  # constraint: C05 obligations; out: designated output (frame clause)
+                if name not in args:
+                    ctx.oblige(f"{tag}:parameter_{name}_covered_by_contract", name == "scale_power", note="parameter not exercised by the contract")
+                    continue
+                v = args[name]
+                names = _names_of(v)
+                if v is None or not names:
+                    continue  # concrete configuration value (enumerated elsewhere)
+                used = any(mentions(e, names) for e in exprs)
+                ctx.oblige(f"{tag}:parameter_{name}_used_or_rejected", used, symbols=names[:4])
+            return None
+
+        return run_config(qual, dict(cfg, guard=True), build, post)
+
+    return run
+
+
+for _spec in OPS:
+    register(Job(f"guard:{_spec.name}", ["C01"], UF + _spec.name, {"guard": True}, guard_job(_spec)))
